@@ -2,6 +2,7 @@ pub mod c01;
 pub mod c02;
 pub mod c03;
 pub mod c06;
+pub mod cc14;
 pub mod numeric;
 
 use crate::report::Report;
@@ -15,6 +16,8 @@ pub fn run_prop(id: &str, cfg: &Cfg, rep: &mut Report) -> bool {
         "C04" => numeric::run(numeric::Mode::C04, cfg, rep),
         "C05" => numeric::run(numeric::Mode::C05, cfg, rep),
         "C06" => c06::run(cfg, rep),
+        "C07" => cc14::run_c07(cfg, rep),
+        "C08" => cc14::run_c08(cfg, rep),
         _ => return false,
     }
     true
